@@ -1,5 +1,5 @@
 (* Lemmas and invariants about Model/KeyAssign.v (properties C05, C06). *)
-From Coq Require Import ZArith List Bool Lia.
+From Coq Require Import ZArith List Bool Lia Setoid.
 From ICS Require Import Base.Tree Model.KeyAssign.
 Import ListNotations.
 Open Scope Z_scope.
@@ -64,7 +64,11 @@ Lemma tp_insert_in : forall ts k l e, In e (tp_insert ts k l) <-> e = (ts, k) \/
 Proof.
   intros ts k l e. induction l as [|[t a] r IH]; simpl.
   - split; [intros [H|[]]; auto | intros [H|[]]; auto].
-  - destruct (t <=? ts); simpl; rewrite ?IH; tauto.
+  - destruct (t <=? ts); simpl.
+    + destruct IH as [I1 I2]. split.
+      * intros [H|H]; auto. destruct (I1 H); auto.
+      * intros [H|[H|H]]; auto.
+    + split; (intros [H|H]; [left; symmetry; exact H | right; exact H]).
 Qed.
 
 Lemma tp_insert_keys_in : forall ts k l x, In x (map snd (tp_insert ts k l)) <-> x = k \/ In x (map snd l).
